@@ -147,14 +147,14 @@ def init_facts(cx, cls):
                     isinstance(x, ast.Attribute) and U(x).startswith('self.') for x in ast.walk(val)):
                 xalias.setdefault(ast.dump(val), key)
 
-        def canon_(e):
+        def canon_(e, own=None):
             if not alias and not xalias:
                 return e
             from .loader import clone as _clone
 
             class T(ast.NodeTransformer):
                 def visit(self, n):
-                    if isinstance(n, (ast.Subscript, ast.Call)) and xalias and ast.dump(n) in xalias:
+                    if isinstance(n, (ast.Subscript, ast.Call)) and xalias and ast.dump(n) in xalias and xalias[ast.dump(n)] != own:
                         return ast.parse(xalias[ast.dump(n)], mode='eval').body
                     return super().visit(n)
 
@@ -166,8 +166,8 @@ def init_facts(cx, cls):
         for key, val in st.heap.items():
             if not key.startswith('self.'):
                 continue
-            if not (isinstance(val, ast.Name) and alias.get(val.id) == key) and not (isinstance(val, (ast.Subscript, ast.Call)) and xalias.get(ast.dump(val)) == key):
-                val = canon_(val)
+            if not (isinstance(val, ast.Name) and alias.get(val.id) == key):
+                val = canon_(val, own=key)      # the attribute's own defining expression is not replaced by the attribute, its parts are
             try:
                 v = nz.norm(val)
             except NotInt:
